@@ -316,4 +316,292 @@ struct Gen<T, std::enable_if_t<std::is_enum<T>::value>> {
 
 }  // namespace vt
 
+
+// =======================================================================================
+// Composite schema constructors (fixed shape).  Appended section: containers per
+// docs/format.md "Array Container", "Binary Container", "Structure", "Variant", "Error";
+// Optional per the NIL row of the prefix table ("Nil / empty / none").
+#include <nop/types/optional.h>
+#include <nop/types/result.h>
+#include <nop/types/variant.h>
+
+namespace vt {
+namespace fmt {
+// prefix + UINT64-class count, encoder side
+inline void enc_header(Out& o, std::uint8_t prefix, std::uint64_t count) {
+  put(o, prefix);
+  enc_uint(o, count);
+}
+// prefix + UINT64-class count that must equal `want`; `bad` is the category for a wrong count
+inline bool dec_header_fixed(In& in, std::uint8_t prefix, std::uint64_t want, nop::ErrorStatus bad) {
+  if (!expect_prefix(in, prefix)) return false;
+  std::uint64_t n;
+  if (!dec_uint(in, 8, &n)) return false;
+  if (n != want) return fail(in, bad);
+  return true;
+}
+template <typename T>
+inline void put_raw(Out& o, const T& v) {  // direct little-endian binary representation
+  unsigned char raw[sizeof(T)];
+  std::memcpy(raw, &v, sizeof(T));
+  for (std::size_t i = 0; i < sizeof(T); i++) put(o, raw[i]);
+}
+template <typename T>
+inline bool get_raw(In& in, T* v) {
+  if (sizeof(T) > in.n - in.pos) return fail(in, nop::ErrorStatus::ReadLimitReached);
+  unsigned char raw[sizeof(T)];
+  for (std::size_t i = 0; i < sizeof(T); i++) raw[i] = in.b[in.pos + i];
+  std::memcpy(v, raw, sizeof(T));
+  in.pos += sizeof(T);
+  return true;
+}
+}  // namespace fmt
+
+// std::array<T, N>: integral T -> BIN with byte length; otherwise ARY with element count
+template <typename T, std::size_t N>
+struct Fmt<std::array<T, N>, std::enable_if_t<std::is_integral<T>::value>> {
+  using A = std::array<T, N>;
+  static void enc(fmt::Out& o, const A& v) {
+    fmt::enc_header(o, FMT_BIN, N * sizeof(T));
+    for (std::size_t i = 0; i < N; i++) fmt::put_raw(o, v[i]);
+  }
+  static bool dec(fmt::In& in, A* v) {
+    if (!fmt::dec_header_fixed(in, FMT_BIN, N * sizeof(T), nop::ErrorStatus::InvalidContainerLength)) return false;
+    for (std::size_t i = 0; i < N; i++)
+      if (!fmt::get_raw(in, &(*v)[i])) return false;
+    return true;
+  }
+};
+template <typename T, std::size_t N>
+struct Fmt<std::array<T, N>, std::enable_if_t<!std::is_integral<T>::value>> {
+  using A = std::array<T, N>;
+  static void enc(fmt::Out& o, const A& v) {
+    fmt::enc_header(o, FMT_ARY, N);
+    for (std::size_t i = 0; i < N; i++) Fmt<T>::enc(o, v[i]);
+  }
+  static bool dec(fmt::In& in, A* v) {
+    if (!fmt::dec_header_fixed(in, FMT_ARY, N, nop::ErrorStatus::InvalidContainerLength)) return false;
+    for (std::size_t i = 0; i < N; i++)
+      if (!Fmt<T>::dec(in, &(*v)[i])) return false;
+    return true;
+  }
+};
+template <typename T, std::size_t N>
+struct Gen<std::array<T, N>> {
+  using A = std::array<T, N>;
+  static void make(A* v) {
+    for (std::size_t i = 0; i < N; i++) Gen<T>::make(&(*v)[i]);
+  }
+  static bool eq(const A& a, const A& b) {
+    bool r = true;
+    for (std::size_t i = 0; i < N; i++) r = r && Gen<T>::eq(a[i], b[i]);
+    return r;
+  }
+};
+
+// std::pair / std::tuple: ARY with the element count, then each element in order
+template <typename A, typename B>
+struct Fmt<std::pair<A, B>> {
+  using P = std::pair<A, B>;
+  static void enc(fmt::Out& o, const P& v) {
+    fmt::enc_header(o, FMT_ARY, 2);
+    Fmt<A>::enc(o, v.first);
+    Fmt<B>::enc(o, v.second);
+  }
+  static bool dec(fmt::In& in, P* v) {
+    if (!fmt::dec_header_fixed(in, FMT_ARY, 2, nop::ErrorStatus::InvalidContainerLength)) return false;
+    return Fmt<A>::dec(in, &v->first) && Fmt<B>::dec(in, &v->second);
+  }
+};
+template <typename A, typename B>
+struct Gen<std::pair<A, B>> {
+  using P = std::pair<A, B>;
+  static void make(P* v) {
+    Gen<A>::make(&v->first);
+    Gen<B>::make(&v->second);
+  }
+  static bool eq(const P& a, const P& b) { return Gen<A>::eq(a.first, b.first) && Gen<B>::eq(a.second, b.second); }
+};
+template <typename A, typename B, typename C>
+struct Fmt<std::tuple<A, B, C>> {
+  using P = std::tuple<A, B, C>;
+  static void enc(fmt::Out& o, const P& v) {
+    fmt::enc_header(o, FMT_ARY, 3);
+    Fmt<A>::enc(o, std::get<0>(v));
+    Fmt<B>::enc(o, std::get<1>(v));
+    Fmt<C>::enc(o, std::get<2>(v));
+  }
+  static bool dec(fmt::In& in, P* v) {
+    if (!fmt::dec_header_fixed(in, FMT_ARY, 3, nop::ErrorStatus::InvalidContainerLength)) return false;
+    return Fmt<A>::dec(in, &std::get<0>(*v)) && Fmt<B>::dec(in, &std::get<1>(*v)) && Fmt<C>::dec(in, &std::get<2>(*v));
+  }
+};
+template <typename A, typename B, typename C>
+struct Gen<std::tuple<A, B, C>> {
+  using P = std::tuple<A, B, C>;
+  static void make(P* v) {
+    Gen<A>::make(&std::get<0>(*v));
+    Gen<B>::make(&std::get<1>(*v));
+    Gen<C>::make(&std::get<2>(*v));
+  }
+  static bool eq(const P& a, const P& b) {
+    return Gen<A>::eq(std::get<0>(a), std::get<0>(b)) && Gen<B>::eq(std::get<1>(a), std::get<1>(b)) && Gen<C>::eq(std::get<2>(a), std::get<2>(b));
+  }
+};
+
+// Optional<T>: NIL when empty, otherwise the element
+template <typename T>
+struct Fmt<nop::Optional<T>> {
+  using O = nop::Optional<T>;
+  static void enc(fmt::Out& o, const O& v) {
+    if (v.empty()) fmt::put(o, FMT_NIL);
+    else Fmt<T>::enc(o, v.get());
+  }
+  static bool dec(fmt::In& in, O* v) {
+    if (in.pos < in.n && in.b[in.pos] == FMT_NIL) {
+      in.pos += 1;
+      v->clear();
+      return true;
+    }
+    T t;
+    Gen<T>::make(&t);
+    if (!Fmt<T>::dec(in, &t)) return false;
+    *v = t;
+    return true;
+  }
+};
+template <typename T>
+struct Gen<nop::Optional<T>> {
+  using O = nop::Optional<T>;
+  static void make(O* v) {
+    if (nondet<bool>()) {
+      T t;
+      Gen<T>::make(&t);
+      *v = t;
+    } else {
+      v->clear();
+    }
+  }
+  static bool eq(const O& a, const O& b) {
+    if (a.empty() || b.empty()) return a.empty() == b.empty();
+    return Gen<T>::eq(a.get(), b.get());
+  }
+};
+
+// Result<E, T>: the value, or ERR followed by the error enum; an ENUM of 0 (None) denotes
+// the result that holds neither (what a default-constructed Result encodes as).
+template <typename E, typename T>
+struct Fmt<nop::Result<E, T>> {
+  using R = nop::Result<E, T>;
+  static void enc(fmt::Out& o, const R& v) {
+    if (v.has_value()) {
+      Fmt<T>::enc(o, v.get());
+    } else {
+      fmt::put(o, FMT_ERR);
+      const E e = v.error();
+      Fmt<E>::enc(o, e);
+    }
+  }
+  static bool dec(fmt::In& in, R* v) {
+    if (in.pos < in.n && in.b[in.pos] == FMT_ERR) {
+      in.pos += 1;
+      E e;
+      if (!Fmt<E>::dec(in, &e)) return false;
+      *v = e;
+      return true;
+    }
+    T t;
+    Gen<T>::make(&t);
+    if (!Fmt<T>::dec(in, &t)) return false;
+    *v = t;
+    return true;
+  }
+};
+template <typename E, typename T>
+struct Gen<nop::Result<E, T>> {
+  using R = nop::Result<E, T>;
+  static void make(R* v) {
+    const std::uint8_t k = nondet<std::uint8_t>();
+    if (k == 0) {
+      v->clear();
+    } else if (k == 1) {
+      E e;
+      Gen<E>::make(&e);
+      *v = e;
+    } else {
+      T t;
+      Gen<T>::make(&t);
+      *v = t;
+    }
+  }
+  static bool eq(const R& a, const R& b) {
+    if (a.has_value() != b.has_value()) return false;
+    if (a.has_value()) return Gen<T>::eq(a.get(), b.get());
+    return a.error() == b.error();
+  }
+};
+
+// Variant<A, B>: VAR, the zero-based index (or -1) in class INT<8*IndexBytes>, the element (NIL when empty).
+// docs/format.md labels the index INT64; include/nop/base/variant.h documents and implements INT32.
+template <typename A, typename B, int IndexBytes>
+struct VariantFmt {
+  using V = nop::Variant<A, B>;
+  static void enc(fmt::Out& o, const V& v) {
+    fmt::put(o, FMT_VAR);
+    fmt::enc_int(o, v.index());
+    if (v.index() == 0) Fmt<A>::enc(o, *v.template get<A>());
+    else if (v.index() == 1) Fmt<B>::enc(o, *v.template get<B>());
+    else fmt::put(o, FMT_NIL);
+  }
+  static bool dec(fmt::In& in, V* v) {
+    if (!fmt::expect_prefix(in, FMT_VAR)) return false;
+    std::int64_t idx;
+    if (!fmt::dec_int(in, IndexBytes, &idx)) return false;
+    if (idx < -1 || idx > 1) return fmt::fail(in, nop::ErrorStatus::UnexpectedVariantType);
+    if (idx == 0) {
+      A a;
+      Gen<A>::make(&a);
+      if (!Fmt<A>::dec(in, &a)) return false;
+      *v = a;
+    } else if (idx == 1) {
+      B b;
+      Gen<B>::make(&b);
+      if (!Fmt<B>::dec(in, &b)) return false;
+      *v = b;
+    } else {
+      if (!fmt::expect_prefix(in, FMT_NIL)) return false;
+      *v = nop::EmptyVariant{};
+    }
+    return true;
+  }
+};
+template <typename A, typename B>
+struct Fmt<nop::Variant<A, B>> : VariantFmt<A, B, 4> {};
+template <typename A, typename B>
+struct Gen<nop::Variant<A, B>> {
+  using V = nop::Variant<A, B>;
+  static void make(V* v) {
+    const std::uint8_t k = nondet<std::uint8_t>();
+    if (k == 0) {
+      A a;
+      Gen<A>::make(&a);
+      *v = a;
+    } else if (k == 1) {
+      B b;
+      Gen<B>::make(&b);
+      *v = b;
+    } else {
+      *v = nop::EmptyVariant{};
+    }
+  }
+  static bool eq(const V& a, const V& b) {
+    if (a.index() != b.index()) return false;
+    if (a.index() == 0) return Gen<A>::eq(*a.template get<A>(), *b.template get<A>());
+    if (a.index() == 1) return Gen<B>::eq(*a.template get<B>(), *b.template get<B>());
+    return true;
+  }
+};
+
+}  // namespace vt
+
 #endif  // VERIF_SPEC_FORMAT_SPEC_H_
